@@ -2134,20 +2134,29 @@ theorem c15_object_extra_inv (o : PGObj K) (h : ObjInv o) :
   rw [hg, hadd]
   rfl
 
-/-- **object history, extensions only** (refinement over arbitrary histories): after any number of
-`add_extra_lower_and_upper_bin` calls the object still satisfies the invariant, so every rounding
+/-- **object history, extensions and copies** (refinement over arbitrary histories): after any number of
+`add_extra_lower_and_upper_bin` calls and copies the object still satisfies the invariant, so every rounding
 theorem (membership, lower/upper/nearest relations) applies to the object as it is *then*. -/
 theorem c15_object_history_partial (o : PGObj K) (h : ObjInv o) (ops : List (PGOp K))
-    (hops : ∀ op ∈ ops, op = PGOp.extra) : ObjInv (o.run ops) := by
+    (hops : ∀ op ∈ ops, op = PGOp.extra ∨ op = PGOp.copy) : ObjInv (o.run ops) := by
   induction ops generalizing o with
   | nil => exact h
   | cons op rest ih =>
-    have hop := hops op (by simp)
-    subst hop
-    obtain ⟨o', ho', hinv⟩ := c15_object_extra_inv o h
-    unfold PGObj.run
-    rw [ho']
-    exact ih o' hinv (fun op hop => hops op (by simp [hop]))
+    have hrest : ∀ op ∈ rest, op = PGOp.extra ∨ op = PGOp.copy := fun op hop => hops op (by simp [hop])
+    rcases hops op (by simp) with hop | hop
+    · subst hop
+      obtain ⟨o', ho', hinv⟩ := c15_object_extra_inv o h
+      unfold PGObj.run
+      rw [ho']
+      exact ih o' hinv hrest
+    · subst hop
+      unfold PGObj.run
+      exact ih o h hrest
+
+/-- **a copy is the object**: continuing a history with `copy()` / `deepcopy` / an unpickled object /
+the member of a copied grid set gives the same states as continuing with the original -/
+theorem c15_object_copy_transparent (o : PGObj K) (ops : List (PGOp K)) :
+    o.run (PGOp.copy :: ops) = o.run ops := rfl
 
 end rangeobj
 
